@@ -161,6 +161,8 @@ type throttler struct {
 	waiting  bool
 	trailing bool
 	stop     bool
+	// scheduled reports that a trailing-edge timer is pending.
+	scheduled bool
 }
 
 // NewThrottle creates a throttled function in order to limit the frequency rate at which the passed in function is invoked.
@@ -186,14 +188,23 @@ func (t *throttler) Call() {
 	t.cond.L.Lock()
 	defer t.cond.L.Unlock()
 
-	if !t.waiting && !t.stop {
+	if !t.waiting && !t.scheduled && !t.stop {
 		delta := time.Since(t.last)
 		if delta > t.duration {
 			t.waiting = true
 			t.cond.Broadcast()
 		} else if t.trailing {
-			t.waiting = true
-			time.AfterFunc(t.duration-delta, t.cond.Broadcast)
+			// The permission is handed out at the trailing edge of the period,
+			// not earlier: waiting is raised by the timer, not here.
+			t.scheduled = true
+			time.AfterFunc(t.duration-delta, func() {
+				t.cond.L.Lock()
+				defer t.cond.L.Unlock()
+
+				t.scheduled = false
+				t.waiting = true
+				t.cond.Broadcast()
+			})
 		}
 	}
 }
